@@ -551,6 +551,55 @@ func opReplayDev(variant int) Op {
 // collation of a stated character set (style "charset") or the character set of a stated collation
 // (style "collate"); the current table states both, and both differ from the schema's defaults. The
 // tables it looks the defaults up in are loaded lazily and kept by the process-wide differ.
+// opSourceOrder: the same SQLite objects declared in another order (tables, UNIQUE constraints, CHECK
+// constraints, indexes) in two databases: inspecting both and diffing them, in both directions, finds
+// nothing to change.
+func opSourceOrder() Op {
+	return Op{"source_order_sqlite", func() (string, error) {
+		ctx := context.Background()
+		ddl := [2][]string{
+			{
+				"CREATE TABLE p (id integer NOT NULL PRIMARY KEY)",
+				"CREATE TABLE t (id integer NOT NULL PRIMARY KEY, a integer NULL, b text NULL, UNIQUE (a), UNIQUE (b), CHECK (a > 0), CHECK (b <> ''))",
+				"CREATE INDEX idx_1 ON t (a, b)",
+				"CREATE INDEX idx_2 ON t (b)",
+			},
+			{
+				"CREATE TABLE t (id integer NOT NULL PRIMARY KEY, a integer NULL, b text NULL, CHECK (b <> ''), CHECK (a > 0), UNIQUE (b), UNIQUE (a))",
+				"CREATE INDEX idx_2 ON t (b)",
+				"CREATE INDEX idx_1 ON t (a, b)",
+				"CREATE TABLE p (id integer NOT NULL PRIMARY KEY)",
+			},
+		}
+		var ss [2]*schema.Schema
+		for i := range ddl {
+			e, err := sqliteh.Open(ctx)
+			if err != nil {
+				return "", err
+			}
+			defer e.Close()
+			if err := e.Exec(ctx, ddl[i]...); err != nil {
+				return "", err
+			}
+			if ss[i], err = e.Atlas.InspectSchema(ctx, "main", nil); err != nil {
+				return "", err
+			}
+		}
+		var b strings.Builder
+		for dir := 0; dir < 2; dir++ {
+			cs, err := sqlite.DefaultDiff.SchemaDiff(ss[dir], ss[1-dir], schema.DiffNormalized())
+			if err != nil {
+				return "", err
+			}
+			if len(cs) > 0 {
+				fmt.Fprintf(&b, "REPEAT-MISMATCH: the same objects declared in another order (direction %d) diff as %s\n", dir, describe(cs, ""))
+			}
+		}
+		b.WriteString("ok\n")
+		return b.String(), nil
+	}}
+}
+
 func opDiffInherit(style string) Op {
 	return Op{"diff_inherit/mysql/" + style, func() (string, error) {
 		mk := func(desired bool) *schema.Schema {
@@ -595,7 +644,7 @@ func Ops(thorough bool) []Op {
 	for _, d := range dfu.Dialects {
 		ops = append(ops, opPlans(d, thorough), opDiffOrder(d), opMarshal(d), opEvalMarshal(d), opMarshalQualified(d))
 	}
-	ops = append(ops, opFormat(), opChecksum(), opValidateErr(), opScopeErr(), opEvalMultiFile(), opReplayDev(0), opReplayDev(1), opReplayDev(2), opDiffInherit("charset"), opDiffInherit("collate"))
+	ops = append(ops, opFormat(), opChecksum(), opValidateErr(), opScopeErr(), opEvalMultiFile(), opReplayDev(0), opReplayDev(1), opReplayDev(2), opSourceOrder(), opDiffInherit("charset"), opDiffInherit("collate"))
 	sort.SliceStable(ops, func(i, j int) bool { return false })
 	return ops
 }
